@@ -32,9 +32,24 @@ fn run_peer(args: &[String]) -> Value {
 }
 
 /// build a C-ABI filter object from the description using only the public C functions
-unsafe fn c_filter(f: &F) -> Result<*mut rodbus_ffi::AddressFilter, i32> {
+/// an address cannot be added to an "any" or a wildcard filter: the call must report an error and
+/// leave the filter as it was (the probes that follow see whether it did)
+unsafe fn add_must_be_refused(filter: *mut rodbus_ffi::AddressFilter, what: &str, ev: &mut Evidence) {
+    let s = cstr("127.0.0.1");
+    let rc = ffi::rodbus_address_filter_add(filter, s.as_ptr());
+    ev.count("filter_add_refusals_checked", 1);
+    if rc == 0 {
+        ev.violation(format!("c_abi:filter_add_accepted_on_{what}"), format!("rodbus_address_filter_add on a {what} filter returned success"), json!({"filter": what}));
+    }
+}
+
+unsafe fn c_filter(f: &F, ev: &mut Evidence) -> Result<*mut rodbus_ffi::AddressFilter, i32> {
     match f {
-        F::Any => Ok(ffi::rodbus_address_filter_any()),
+        F::Any => {
+            let out = ffi::rodbus_address_filter_any();
+            add_must_be_refused(out, "any", ev);
+            Ok(out)
+        }
         F::Exact(a) => {
             let mut out = std::ptr::null_mut();
             let s = cstr(&a.to_string());
@@ -67,6 +82,10 @@ unsafe fn c_filter(f: &F) -> Result<*mut rodbus_ffi::AddressFilter, i32> {
             let rc = ffi::rodbus_address_filter_create(s.as_ptr(), &mut out);
             if rc != 0 {
                 return Err(rc);
+            }
+            // (a pattern without '*' is an ordinary address for the C ABI: adding to it is fine)
+            if w.iter().any(|x| x.is_none()) {
+                add_must_be_refused(out, "wildcard", ev);
             }
             Ok(out)
         }
@@ -131,7 +150,7 @@ pub fn run(args: &Args) -> i32 {
         let f = vcommon::filter::gen_filter_indexed(&mut rng, &sources, (i / 3) as u64 + if i >= 15 { 5 } else { 0 });
         let variant = ["tcp", "tls", "tls_authz"][i % 3];
         unsafe {
-            let filter = match c_filter(&f) {
+            let filter = match c_filter(&f, &mut ev) {
                 Ok(x) => x,
                 Err(rc) => {
                     ev.violation(format!("c_abi:filter_rejected:{}:rc={rc}", f.class()), format!("rodbus_address_filter_create/add rejected the canonical description of {f:?} with {rc}"), json!({"filter": format!("{f:?}")}));
